@@ -55,6 +55,19 @@ RealPbfConfigs ==
      skip |-> {1} \cup sk, script |-> s] :
       nest \in [1..(n - 1) -> {1}], f \in PbfFaults(n, p), sk \in SUBSET (2..n), s \in RealScripts}
    : n \in Ns, p \in Pools}
+(* real PBF data arriving through the input queue (compressed PBF file / memory buffer): the decompressor delivers one blob
+   frame per piece, the real PBF parser reads them from the queue *)
+PbfQFaults(n, pool) == {NoFault} \cup {[k |-> "read", at |-> j, pre |-> FALSE] : j \in 1..(n + 1)}
+                       \cup {[k |-> "dclose", at |-> 0, pre |-> FALSE]}
+                       \cup {[k |-> "parse", at |-> 1, pre |-> TRUE]}
+                       \cup {[k |-> "parse", at |-> j, pre |-> FALSE] : j \in 2..n}
+                       \cup (IF pool THEN {[k |-> "work", at |-> j, pre |-> FALSE] : j \in 2..n} ELSE {})
+RealPbfQConfigs ==
+  UNION {
+   {[n |-> n, nest |-> <<0>> \o nest, fault |-> f, maxIn |-> 2, maxOut |-> 2, pool |-> p, fd |-> FALSE, fdstop |-> TRUE, hdrblk |-> TRUE,
+     skip |-> {1} \cup sk, script |-> s] :
+      nest \in [1..(n - 1) -> {1}], f \in PbfQFaults(n, p), sk \in SUBSET (2..n), s \in RealScripts}
+   : n \in Ns, p \in Pools}
 (* real XML / OPL files: no faults, every entity selection *)
 RealTextConfigs ==
   UNION {
